@@ -22,6 +22,15 @@ var pathShapes = []Path{
 	{Seq: []Path{PP("p0", false), {Alt: []Path{PP("p1", false), PP("p2", true)}}, PP("p3", false)}},
 	{Alt: []Path{{Seq: []Path{PP("p0", false), PP("p1", false)}}, PP("p2", false), {Seq: []Path{PP("p3", true), PType()}}}},
 	{Seq: []Path{{Alt: []Path{PP("p0", false), PP("p1", false)}}, {Alt: []Path{PP("p2", false), PP("p3", false)}}, {Alt: []Path{PP("p0", true), PP("p1", true)}}}},
+	// custom (annotation) property steps, direct and inverse, in every position of a sequence and inside alternatives
+	PCustom("wadus", false), PCustom("wadus", true),
+	{Seq: []Path{PCustom("wadus", false), PP("p0", false)}},
+	{Seq: []Path{PCustom("wadus", true), PP("p0", false)}},
+	{Seq: []Path{PP("p0", false), PCustom("wadus", false)}},
+	{Seq: []Path{PP("p0", true), PCustom("wadus", true)}},
+	{Seq: []Path{PP("p0", true), PCustom("wadus", true), PP("p1", false)}},
+	{Seq: []Path{{Alt: []Path{PP("p0", true), PP("p1", true)}}, PCustom("wadus", true), PCustom("maturity", false)}},
+	{Alt: []Path{PCustom("wadus", true), {Seq: []Path{PP("p0", false), PCustom("wadus", true)}}, PType()}},
 }
 
 func atomOfKind(kind string, p Path) Atom {
